@@ -116,6 +116,9 @@ def special(rng):
             d['l'] = [{'$"{tier}"': 'a', 'web': 'b'}]
         if rng.random() < 0.5:
             d['r'] = {'$"k"': {'$repeat': 2, 'i': '$repeat'}}
+        if rng.random() < 0.6:
+            # keys generated by a repeat collide with keys written out next to it
+            d['pool'] = {'$"srv-{$repeat}"': {'$repeat': rng.randint(2, 4), 'i': '$repeat'}, 'srv-1': {'literal': True}, 'srv-0': rng.choice(['x', {'literal': 0}]), 'aaa': 1, 'zzz': 2}
         return [('d', [], d)]
     m = manykeys(rng, rng.randint(10, 30))
     keys = list(m.keys())
